@@ -51,6 +51,16 @@ Theorem C26_refuted_final_symlink :
 Proof. exact refuted_final_symlink_proof. Qed.
 Print Assumptions C26_refuted_final_symlink.
 
+(** ... and the download check itself is bypassed by a trailing "/." or "/" *)
+Theorem C26_refuted_download_trailing_dot :
+  let fs := build_fs w_tree in
+  o_code (exec w_allowed fs (RDownload "/allowed/link")) = 1%N /\
+  escapes w_allowed fs (RDownload "/allowed/link/.") = true /\
+  escapes w_allowed fs (RDownload "/allowed/link/") = true /\
+  o_payload (exec w_allowed fs (RDownload "/allowed/link/.")) = "<directory>".
+Proof. exact refuted_download_trailing_dot_proof. Qed.
+Print Assumptions C26_refuted_download_trailing_dot.
+
 (** What does hold, for every allow list, every file system state and every
     request: if no component of the (cleaned) requested path is a symbolic
     link — and the path text has no ".." for the kernel to resolve
